@@ -161,7 +161,7 @@ ENGINES[2]["serves_properties"] += ["C12","C03"]
 ADDENDA = {
  "C01": "Plus a family of areas of 2-4 polygons, each explicit / one path / outer+hole paths, in every order, namespace pattern and ID order.",
  "C03": "Plus a token-boundary family (searchable keys sorting before, between and after the index's cell tokens, single files and every split into two) and a typed-compound family (Typed of every type at every position of binary/ternary intersections and unions over tags shared by a point, a path, an area and a relation).",
- "C04": "Plus filter worlds: every sequence of 1-4 slots over {match, covering-only reject} x tagged/untagged with consecutive IDs, every exact query bare and under Typed / Intersection / Union in both operand orders.",
+ "C04": "Plus filter worlds: every sequence of 1-4 slots over {match, covering-only reject} x tagged/untagged with consecutive IDs, every exact query bare and under Typed / Intersection / Union in both operand orders. Plus straddle scenes (short multi-vertex features with ends in the home level-16 cell and the middle in each of its 8 neighbours, and the reverse).",
  "C05": "Every comparison is made at 9 places of the sphere (face axis, face centre, off-axis in every sign combination, a face edge, a face corner) and, for cell levels 1-24, with probes positioned by the cell's own four vertices (each corner sliver, each edge just inside/outside, through the centre).",
  "C07": "Quick tier uses 6 keys (double rotations around a pivot of balance +1 need them).",
  "C11": "Plus a namespace-table sweep: every equality pattern of the four table entries (15 set partitions) x every record codec that takes a table, with reference lists drawn relative to the table.",
@@ -169,17 +169,20 @@ ADDENDA = {
  "C15": "Histories include 12 tag edits; plus a repeat menu (paths revisiting a point, members listed twice) and 126 reference-cycle graphs (relations / collections / both, length 1-3) as static worlds and closed by edit histories.",
  "C16": "Plus kind H: every edit history of 1-2 (chain base: 3) operations on a MutableOverlayWorld over each base, and point versions at boundary locations (origin, equator, prime meridian, poles, antimeridian).",
  "C17": "Plus overlapping files (every distribution of the features over 2-3 files with at least one shared feature, every load order) and probes interleaved with merges (lookups, searches, enumeration after every Merge, judged against the files merged so far).",
- "C18": "Plus every collection key sequence of length <=4 over 4 keys x 4 key types x 6 histories, and behavioural observations (FindValue / FindValues / Get / Reference(i)) in the comparison.",
+ "C18": "Plus every collection key sequence of length <=4 over 4 keys x 4 key types x 6 histories, and behavioural observations (FindValue / FindValues / Get / Reference(i)) in the comparison. Plus dependency DAGs of newly added features (diamonds, shared members) in every order the world accepts; an export that fails to apply to a fresh base is a violation.",
  "C20": "String menu includes backslash runs touching the closing quote.",
  "C21": "Plus a structured grammar family (13 contexts x 14 callees x stagings of partial application x 8 link forms x argument shapes: 302k programs quick, 6M thorough).",
- "C23": "Plus heterogeneous collections: for each of the 53 (function, collection parameter) pairs, collections of 2-3 elements whose first element has one (key kind, value kind) and one later element another.",
+ "C23": "Plus heterogeneous collections: for each of the 53 (function, collection parameter) pairs, collections of 2-3 elements whose first element has one (key kind, value kind) and one later element another. Plus lambda shapes: lambdas with 0-3 parameters whose body calls each registered function with 0-3 arguments drawn from the parameters and a literal, as the request, applied, nested and as the callable of 13 higher-order functions.",
  "C24": "Collection features are also reached by merge/replace of a feature of the opposite sortedness.",
- "C26": "Changes with 2-3 entries in every valid/failing pattern, multi-entry merge parts, an entry-by-entry oracle, a read-only server, and for every k a world wrapper failing the k-th mutating call (any failed mutation must be reported).",
+ "C26": "Changes with 2-3 entries in every valid/failing pattern, multi-entry merge parts, an entry-by-entry oracle, a read-only server, and for every k a world wrapper failing the k-th mutating call (any failed mutation must be reported). Tag edits on every feature type x {base, overlay only, absent} x {plain, searchable}, absence decided by the model world.",
  "C29": "Plus multipolygon member sequences with node/relation members of every role at every position, relation graphs (plain -> multipolygon / plain / absent, both ID and source orders, memory and PBF sources, first Read) and OSM tags keyed like b6's reserved keys.",
  "C33": "Plus consecutive vertices that coincide / share a tile unit / are one unit apart (lines, shells, holes incl. the closing edge) through EncodeTile and through the Encoder API directly, judged by an independent command-stream decoder.",
- "C37": "Plus multi-polygon areas mixing explicit polygons, single paths and outer+hole paths in every path state, for build, add and replace.",
+ "C37": "Plus multi-polygon areas mixing explicit polygons, single paths and outer+hole paths in every path state, for build, add and replace. Plus path-ID features with degenerate tags (no path tag, point tag, non-list values, doubled path tag) through every entry point.",
  "C38": "Every slice a feature owns is built in three layouts (exact, spare capacity, grown and cut back incl. empty with spare capacity); plus both-sides scenarios (world/caller, original/clone, clone/clone: every mutator x every mutator x both orders).",
  "C39": "Each state in three backing-array layouts (exact, 1 and 2 spare slots with stale tags); values include lists (empty, [p q], [p q r]).",
+ "C09": "Plus a free-running race-detector pass over the concurrent-writer bodies (un-rewritten tree).",
+ "C25": "Failing input iterators return (false, err) and (true, err); VM family includes map-parallel over a failing map.",
+ "C36": "Plus a narrow-seam counters family: 2-3 goroutines counting every partition of 2-4 features into the builder's NamespacedCounts, every interleaving, no bound.",
 }
 for _id, _t in ADDENDA.items():
     if _id in CHECKS:
